@@ -68,7 +68,6 @@ func diagText(err error) (summary string, line int, all string) {
 	return summary, line, err.Error()
 }
 
-// classAtLine finds the spelling class of the attribute whose text covers the given line of src.
 func sigSlug(s string) string {
 	s = strings.ToLower(s)
 	var b strings.Builder
@@ -130,7 +129,7 @@ func classifyA(c CaseA) core.Class {
 		cl.Labels = append(cl.Labels, "repeated-block")
 	}
 	cl.NonTrivial = set["needs-escape"] || rep
-	major := []string{"hex", "heredoc", "heredoc-flush", "tmpl-escape", "num-as-string", "comment-line", "shuffled"}
+	major := []string{"hex", "heredoc", "heredoc-flush", "tmpl-escape", "num-as-string"}
 	key := ""
 	for _, m := range major {
 		if set[m] {
@@ -152,7 +151,7 @@ func TestMain(m *testing.M) {
 func TestC14a(t *testing.T) {
 	core.Run(t, core.Spec[CaseA]{
 		Property: "C14", Sub: "a",
-		Rule: "value of profile.HavocConfig generated from its yaotl struct tags (every optional block present/absent, 0-4 repeated user/Http/Smb/External blocks, lists and maps of 0-5 entries, int64 boundary and random ints, strings built from identifier-like text, quotes, backslashes, $ % { } template markers, control characters incl. NUL, Unicode incl. astral and non-NFC sequences, whole-line texts) printed with generated spelling (per character raw / \\n \\r \\t \\\" \\\\ / \\xHH per UTF-8 byte, $${ %%{, <<ID and <<-ID heredocs, numbers and booleans as literals or strings, exponent/leading-zero forms, bare or quoted labels and map keys, = or : in maps, shuffled items, # // /* */ comments, blank lines, CRLF, BOM, one-line blocks), loaded with profile.NewProfile().SetProfile; oracle: no error and every string/int/bool/list/map/label/repeated block equals the generated value. Non-trivial: some string needs an escape, or a block type is repeated; distinct = (#top-level blocks, repeated?, spelling classes used out of hex/heredoc/flush heredoc/template escape/number-as-string/comments/shuffled)",
+		Rule: "value of profile.HavocConfig generated from its yaotl struct tags (every optional block present/absent, 0-4 repeated user/Http/Smb/External blocks, lists and maps of 0-5 entries, int64 boundary and random ints, strings built from identifier-like text, quotes, backslashes, $ % { } template markers, control characters incl. NUL, Unicode incl. astral and non-NFC sequences, whole-line texts) printed with generated spelling (per character raw / \\n \\r \\t \\\" \\\\ / \\xHH per UTF-8 byte, $${ %%{, <<ID and <<-ID heredocs, numbers and booleans as literals or strings, exponent/leading-zero forms, bare or quoted labels and map keys, = or : in maps, shuffled items, # // /* */ comments, blank lines, CRLF, BOM, one-line blocks), loaded with profile.NewProfile().SetProfile; oracle: no error and every string/int/bool/list/map/label/repeated block equals the generated value. Non-trivial: some string needs an escape, or a block type is repeated; distinct = (#top-level blocks, repeated?, spelling classes used out of hex/heredoc/flush heredoc/template escape/number-as-string)",
 		Gen:   genA, Check: checkA, Classify: classifyA,
 		Assumptions: []string{
 			"attribute strings, list elements, map keys and values are compared after Unicode NFC: every cty string is NFC-normalised on entry (go-cty docs/types.md), which is the documented data model of the language; block labels do not pass through cty in the loader (they do in hclwrite), so a label is accepted either byte for byte or NFC-normalised",
